@@ -314,9 +314,12 @@ def make_subset_data(data, pixels=None, return_selection=False, seed=None):
     tot_pix = flat(data).sizes['flat']
     selection = np.random.choice(tot_pix, pixels, replace=False)
     subset = flat(data).isel(flat=selection)
-    subset = copy_metadata(data, subset, do_coords=False)
-
-    subset.attrs['original_dims'] = {key: data[key].values for key in data.dims}
+    if not hasattr(data, 'flat'):
+        subset = copy_metadata(data, subset, do_coords=False)
+    if 'original_dims' not in subset.attrs:
+        # a subset of a subset keeps the record of the image's axes
+        subset.attrs['original_dims'] = {
+            key: data[key].values for key in data.dims}
 
     if return_selection:
         return subset, selection
